@@ -482,7 +482,9 @@ func (s *Service) createGateway(
 	if err = s.table.NewCreate().
 		Entries(&toCreate).
 		Exec(ctx, tx); err != nil {
-		return err
+		// The engine channels were created above; do not leave them behind without
+		// metadata.
+		return errors.Combine(err, s.cfg.TSChannel.DeleteChannels(KeysFromChannels(toCreate).Storage()))
 	}
 	s.mu.externalNonVirtualSet.Insert(externalCreatedKeys...)
 	return nil
